@@ -166,6 +166,21 @@ impl Report {
 
     /// Runs every case of `part` on all cores. `wall_cap`: stop handing out new cases after it.
     pub fn run_part(&mut self, part: &dyn Part, wall_cap: Duration) {
+        // Replay / debugging: VERIF_ONLY="<part name>:<index>" runs that single case with a trace.
+        if let Ok(only) = std::env::var("VERIF_ONLY") {
+            let (pn, idx) = only.rsplit_once(':').unwrap_or((&only, "0"));
+            if pn != part.name() {
+                return;
+            }
+            let idx: u64 = idx.parse().unwrap_or(0);
+            println!("== replay part {} case {}: {}", pn, idx, part.describe(idx));
+            let r = part.run(idx, true);
+            for v in &r.viols {
+                println!("   VIOL {} :: {}", v.sig, v.detail);
+            }
+            println!("== {} violation(s), counters {:?}", r.viols.len(), r.counters);
+            std::process::exit(if r.viols.is_empty() { 0 } else { 1 });
+        }
         let t0 = Instant::now();
         let n = part.len();
         let next = AtomicU64::new(0);
@@ -189,6 +204,7 @@ impl Report {
         }
         let accs: Mutex<Vec<Acc>> = Mutex::new(vec![]);
         let nthreads = threads().min(n.max(1) as usize).max(1);
+        let progress = std::env::var("VERIF_PROGRESS").is_ok();
         std::thread::scope(|s| {
             for _ in 0..nthreads {
                 s.spawn(|| {
@@ -212,6 +228,9 @@ impl Report {
                             break;
                         }
                         for idx in start..(start + chunk).min(n) {
+                            if progress {
+                                eprintln!("    case {idx} start");
+                            }
                             let r = part.run(idx, false);
                             a.executed += 1;
                             a.nontrivial += r.nontrivial as u64;
